@@ -953,6 +953,7 @@ func checkDecoderPanics(c *km.Ctx, s *km.Sem) {
 		}
 	}
 	checkIPv4Decoder(c, s, "R-C10-4")
+	checkUploadUsedAfterTest(c, s, "R-C10-4")
 }
 
 func isSplitResult(v ssa.Value) bool {
@@ -1204,4 +1205,48 @@ func strictlyLongerBySuffix(k km.Conj, base, other ssa.Value) bool {
 		}
 	}
 	return affix && differ
+}
+
+// checkUploadUsedAfterTest: the uploaded key file is nil when the request carries no such part; every use of it - a
+// deferred Close included, which evaluates the method value at the defer statement - comes after the test of the
+// error FormFile returned with it.
+func checkUploadUsedAfterTest(c *km.Ctx, s *km.Sem, rule string) {
+	n := 0
+	for _, fn := range c.P.AllFuncs {
+		if fn.Pkg == nil || !pkgIsKMD(fn.Pkg) {
+			continue
+		}
+		for _, ci := range km.CallsIn(fn) {
+			cl, ok := ci.(*ssa.Call)
+			if !ok || km.CalleeFull(cl.Common()) != "(*net/http.Request).FormFile" {
+				continue
+			}
+			var file ssa.Value
+			for _, ref := range *cl.Referrers() {
+				if ex, isEx := ref.(*ssa.Extract); isEx && ex.Index == 0 {
+					file = ex
+				}
+			}
+			if file == nil {
+				continue
+			}
+			errNil := primErrNilCall("upload present", cl, 2)
+			for _, ref := range *file.Referrers() {
+				in, isIn := ref.(ssa.Instruction)
+				if !isIn {
+					continue
+				}
+				if _, isDbg := ref.(*ssa.DebugRef); isDbg {
+					continue
+				}
+				n++
+				st := c.F.At(in)
+				ok := len(st) > 0 && st.All(func(k km.Conj) bool { return s.Holds(k, errNil) })
+				c.R.Add(rule, km.FuncName(fn), "use of the uploaded file", posOf(c, in), "FormFile's error was tested (err == nil) on every path to the use", sprintf("%v", ok), ok)
+			}
+		}
+	}
+	if n == 0 {
+		c.R.AnchorLost(rule, "uses of the FormFile result in cmd/keymasterd")
+	}
 }
